@@ -44,10 +44,11 @@ def prepare(tier):
 
 
 def gen_member(rng, mid, n):
-    kind = rng.choice(["arr", "arr", "arr", "vec"])
+    # "arr2": an Array of shape (n, 2) or (n, 3): as long as an (n,) member, but of another shape
+    kind = rng.choice(["arr", "arr", "arr", "arr", "arr", "arr", "vec", "vec", "arr2"])
     order = list(range(max(n, 1)))
     rng.shuffle(order)
-    return {"kind": kind, "nc": rng.choice([1, 2, 3]) if kind == "vec" else 1, "dtype": rng.choice(["f8", "f8", "f4", "i8", "i4"]),
+    return {"kind": kind, "nc": rng.choice([1, 2, 3]) if kind == "vec" else (rng.choice([2, 3]) if kind == "arr2" else 1), "dtype": rng.choice(["f8", "f8", "f4", "i8", "i4"]),
             "unit": rng.choice(["", "m", "g", "cm/s"]), "mid": mid, "order": order}
 
 
@@ -132,6 +133,8 @@ def stamp(m, n):
     comps = []
     for c in range(m["nc"]):
         comps.append(np.array([b + 20000 * c for b in base], dtype=DT[m["dtype"]]))
+    if m["kind"] == "arr2":
+        return [np.stack(comps, axis=1)] if n else [np.zeros((0, m["nc"]), dtype=DT[m["dtype"]])]
     return comps
 
 
@@ -139,7 +142,7 @@ def build(m, n):
     import osyris
 
     comps = stamp(m, n)
-    if m["kind"] == "arr":
+    if m["kind"] in ("arr", "arr2"):
         return osyris.Array(values=comps[0].copy(), unit=m["unit"]), comps
     return osyris.Vector(*[c.copy() for c in comps], unit=m["unit"]), comps
 
@@ -259,7 +262,7 @@ def big_scenario(bg, osy, viol, stats):
             dg.sortby("a")
             out = dg
         elif s == "sortby-index":
-            dg.sortby(ni.copy())
+            dg.sortby(ni.copy() if bg["seed"] % 2 else osy.Array(values=ni.copy()))
             out = dg
         else:
             out = dg[oi]
@@ -506,7 +509,11 @@ def execute(case, stats):
                 else:
                     p = [i for i in op["idx"] if i < n]
                     p = p + [i for i in range(n) if i not in p]
-                    S.g.sortby(list(p) if op["pick"] % 2 else np.array(p, dtype=np.int64))
+                    # the permutation as a list, an ndarray, or carried by an (int64 / int32) Array
+                    how_ = op["pick"] % 4
+                    S.g.sortby(list(p) if how_ == 1 else np.array(p, dtype=np.int64) if how_ == 0 else
+                               osy.Array(values=np.array(p, dtype=np.int64 if how_ == 2 else np.int32)))
+                    stats.inc("probe.sortby_index_as_" + ["ndarray", "list", "Array_i8", "Array_i4"][how_])
                     for kk, e in S.m.items():
                         e["comps"] = [c[np.array(p, dtype=np.int64)] for c in e["comps"]]
                         e["obj"] = S.g[kk]
